@@ -30,13 +30,17 @@ EXHAUSTIVE = {"quick": True, "thorough": True}
 
 STR_ALPH = ["a", "b", "ab", "abc", "B", "c"]
 # a flagged search comes *before* the plain search with the same expression (pattern caches must honour the flags)
-PATTERNS = [["a", int(re.I)], "a", ["[ab]", int(re.I)], "[ab]", ["ab?", int(re.I)], ".*", "a|b", "ab?", "a.*", "x", "(?i)b", ["A", int(re.I)],
+PATTERNS = ["\u00ab[ab]\u00bb", ["\u00aba.*", int(re.I)], ["a", int(re.I)], "a", ["[ab]", int(re.I)], "[ab]", ["ab?", int(re.I)], ".*", "a|b", "ab?", "a.*", "x", "(?i)b", ["A", int(re.I)],
             ["a.", int(re.S)], "", "a+b*c?", ["b", int(re.I)], "b"]
 FLAVOURS = ["str", "int", "ids"]
 
 
 def ident(lst):
     return [id(x) for x in lst]
+
+
+class _StrKey(str):
+    """A str subclass (as StrEnum members or typed ids are)."""
 
 
 def build(case):
@@ -47,7 +51,11 @@ def build(case):
     n = gen.size(f)
     par = gen.parents(f)
     # a tree with an id hook that computes the default rule: lookups must behave exactly the same
-    t = Tree("t", calc_data_id=(lambda tree, data: hash(data))) if case.get("hook") else Tree("t")
+    if case.get("ext"):
+        # a node class of its own: always falsy, and a `name` that differs from str(data) - pattern searches match the *name*
+        t = gen.ext_classes()["XTree"]("t")
+    else:
+        t = Tree("t", calc_data_id=(lambda tree, data: hash(data))) if case.get("hook") else Tree("t")
     fl = case["flavour"]
     if fl == "str":
         labs = gen.clone_labeling(rng, f, STR_ALPH) or [f"n{i}" for i in range(n)]
@@ -194,7 +202,7 @@ def run_case(case, res):
             for start in starts:
                 for add_self in ([False] if start is None else [False, True]):
                     sub = order if start is None else ([start] if add_self else []) + desc(start)
-                    matchers = [(p, (lambda nd, p=p: re.fullmatch(p, str(nd.data)) if isinstance(p, str) else re.fullmatch(p[0], str(nd.data), p[1])),
+                    matchers = [(p, (lambda nd, p=p: re.fullmatch(p, nd.name) if isinstance(p, str) else re.fullmatch(p[0], nd.name, p[1])),
                                  p if isinstance(p, str) else (tuple(p) if pi % 2 else list(p))) for pi, p in enumerate(PATTERNS)]  # (regex, flags) as tuple or list
                     matchers += [(nm, fn, fn) for nm, fn in preds]
                     for nm, fn, arg in matchers:
@@ -306,6 +314,23 @@ def run_case(case, res):
                 if got != ("EXC", "ValueError"):
                     bad.append(f"tree[<node>] -> {got!r}, expected ValueError")
                 res.count("getitem:nodekey")
+                # a node is never a key - also a node of another tree or of another node class
+                from nutree import Tree as _T
+                from nutree.typed_tree import TypedTree as _TT
+
+                for foreign in (_T("f").add(order[0].data), _TT("ft").add("x", kind="k"), gen.ext_classes()["XTree"]("fx").add("y"), t.system_root):
+                    got = attempt(lambda: t[foreign])
+                    if got != ("EXC", "ValueError"):
+                        bad.append(f"tree[<{type(foreign).__name__} of another tree>] -> {got!r}, expected ValueError")
+                    res.count("getitem:foreign_nodekey")
+                # a key that is an instance of a str subclass behaves like the equal str
+                for x in order[:6]:
+                    if isinstance(x.data_id, str) or isinstance(x.data, str):
+                        for plain in ([x.data_id] if isinstance(x.data_id, str) else []) + ([x.data] if isinstance(x.data, str) else []):
+                            a, b = attempt(lambda: t[plain]), attempt(lambda: t[_StrKey(plain)])
+                            res.count("getitem:str_subclass_key")
+                            if (a is not b) if not isinstance(a, tuple) else (a != b):
+                                bad.append(f"tree[{plain!r}] gives {a!r}, but the equal key of a str subclass gives {b!r}")
             # ---- del tree[key] on a fresh copy of the case ---------------------------
             for which in range(0 if case.get("prelude") else min(3, len(order))):
                 # simple form: resolve, then delete by the same key and compare
@@ -390,6 +415,8 @@ def run_shard(spec, res):
                         run_case({"f": gen.code(f), "flavour": fl, "seed": seed, "prelude": True}, res)
                     if n >= 2 and k % 2:
                         run_case({"f": gen.code(f), "flavour": fl, "seed": seed, "hook": True}, res)
+                    if n >= 2 and k % 2 == 0:
+                        run_case({"f": gen.code(f), "flavour": fl, "seed": seed, "ext": True, "prelude": k % 4 == 0}, res)
                 if res.expired():
                     res.count("exhaustive_cut")
                     res.inconc("enumeration cut by time budget")
@@ -398,7 +425,8 @@ def run_shard(spec, res):
         rng = rng_for(seed, "c09-rand", spec["i"])
         for j in range(spec["count"]):
             f = gen.random_forest(rng, rng.randint(6, 16))
-            run_case({"f": gen.code(f), "flavour": rng.choice(FLAVOURS), "seed": rng.randrange(10**6), "prelude": rng.random() < 0.5, "hook": rng.random() < 0.3}, res)
+            run_case({"f": gen.code(f), "flavour": rng.choice(FLAVOURS), "seed": rng.randrange(10**6), "prelude": rng.random() < 0.5, "hook": rng.random() < 0.3,
+                      "ext": rng.random() < 0.3}, res)
             if res.expired():
                 break
 
